@@ -41,6 +41,29 @@ def run(tier, seed):
             for _ in range(rng.randint(1, 6)):
                 fs.append({"op": "set8", "off": rng.randrange(max(1, r["len"])), "v": rng.randrange(256)})
             plans.append({"id": "r%d" % k, "stage": r["stage"], "layer": r["layer"], "faults": fs, "uid": 1004})
+        # short / odd frames in place of each reply: the framing layer's own length arithmetic (TPKT length 0..8, fast-path
+        # short and long length forms announcing less than their own header, first bytes that start neither kind of frame)
+        k = 0
+        for st in ("cc", "cresp", "attach", "join", "licence"):
+            for b0 in (0, 1, 2, 3, 4, 0x7f, 0x80, 0xfc, 0xff):
+                for b1 in (0, 1, 2, 3, 4, 0x7f, 0x80, 0x81, 0x82, 0xff):
+                    for b2 in (0, 1, 2, 3, 4, 5, 7, 8, 0x7f, 0x80, 0xff):
+                        for tail in ([], [0, 0, 0, 0], [b2] * 20):
+                            if tier == "quick" and st not in ("cc", "attach") and (k % 3):
+                                k += 1; continue
+                            plans.append({"id": "s%d" % k, "stage": st, "layer": "frame", "faults": [{"op": "trunc", "at": 0}, {"op": "append", "bytes": [b0, b1, b2] + tail}], "uid": 1004})
+                            k += 1
+        # the outer BER length of the MCS connect response in every definite long form (honest size, off by one, sizes no
+        # message can have, more length octets than a size can need) and the indefinite form
+        n0 = [r for r in regs if r["stage"] == "cresp" and r["layer"] == "ber"][0]["len"] - 4
+        forms = []
+        for val in (n0, n0 + 1, n0 - 1, 0, 0xffff, 0x10000, 0x7fffffff, 0xffffffff):
+            for kk in (1, 2, 3, 4):
+                if val < 256 ** kk:
+                    forms.append([0x80 + kk] + [(val >> (8 * (kk - 1 - i))) & 255 for i in range(kk)])
+        forms += [[0x80], [0x88] + [0xff] * 8, [0x88, 0, 0, 0, 0, 0, 0, 0, n0 & 255], [0xff], [0x85, 1, 0, 0, 0, 0]]
+        for j, lf in enumerate(forms):
+            plans.append({"id": "berlen%d" % j, "stage": "cresp", "layer": "berlen", "faults": [{"op": "trunc", "at": 0}, {"op": "append", "bytes": lf}], "uid": 1004})
         plans.append({"id": "selftest", "stage": "attach", "layer": "mcs", "faults": [{"op": "set8", "off": 1, "v": 1}], "uid": 1004})
         pp = os.path.join(wd, "plans.ndjson")
         with open(pp, "w") as f:
